@@ -56,7 +56,7 @@ theorem expected_append (log : List SendRec) (r : SendRec) (j : Nat) (k : Kind) 
 theorem getElem?_enqueue (socks : List Sock) (dst : Nat) (d : Dgram) (j : Nat) :
     (enqueue socks dst d)[j]? =
       if dst = j then (socks[j]?).map (fun s =>
-        if kAccepts s.kind d.src then { s with queue := s.queue ++ [d], accepted := s.accepted ++ [d] } else s)
+        if s.alive && kAccepts s.kind d.src then { s with queue := s.queue ++ [d], accepted := s.accepted ++ [d] } else s)
       else socks[j]? := by
   unfold enqueue
   rw [List.getElem?_modify]
@@ -67,6 +67,12 @@ theorem getElem?_enqueue (socks : List Sock) (dst : Nat) (d : Dgram) (j : Nat) :
 theorem length_enqueue (socks : List Sock) (dst : Nat) (d : Dgram) :
     (enqueue socks dst d).length = socks.length := by
   unfold enqueue; simp
+
+theorem deliverable_lt (socks : List Sock) (dst : Nat) (h : deliverable socks dst = true) : dst < socks.length := by
+  unfold deliverable at h
+  cases hs : socks[dst]? with
+  | none => simp [hs] at h
+  | some s => exact (List.getElem?_eq_some_iff.mp hs).1
 
 /-- opening a socket -/
 theorem inv_open (w : World) (k : Kind) (h : Inv w) :
@@ -111,7 +117,7 @@ theorem inv_open (w : World) (k : Kind) (h : Inv w) :
 theorem inv_sent (w : World) (src dst : Nat) (data : Bytes) (lib : Bool) (h : Inv w) (hsrc : src < w.socks.length)
     (hlen : lib = true → data.length ≤ maxLen) :
     Inv { w with socks := enqueue w.socks dst ⟨src, data⟩,
-                 log := w.log ++ [⟨src, dst, data, .sent, decide (dst < w.socks.length), lib⟩] } := by
+                 log := w.log ++ [⟨src, dst, data, .sent, deliverable w.socks dst, lib⟩] } := by
   refine ⟨?_, ?_, h.kmaxGe, ?_⟩
   rotate_left 2
   · intro r hr hl hst
@@ -132,8 +138,13 @@ theorem inv_sent (w : World) (src dst : Nat) (data : Bytes) (lib : Bool) (h : In
         have hs := h.socks dst s0 hs0
         have hdlt : dst < w.socks.length := by
           have := List.getElem?_eq_some_iff.mp hs0; exact this.1
-        by_cases hacc : kAccepts s0.kind src = true
-        · simp only [hacc, if_true] at hj
+        have hdel : deliverable w.socks dst = s0.alive := by simp [deliverable, hs0]
+        by_cases hacc : (s0.alive && kAccepts s0.kind src) = true
+        · have hal : s0.alive = true := by
+            cases ha : s0.alive <;> simp [ha] at hacc ⊢
+          have hacc' : kAccepts s0.kind src = true := by
+            cases ha : kAccepts s0.kind src <;> simp [ha] at hacc ⊢
+          simp only [hacc, if_true] at hj
           subst hj
           refine ⟨?_, ?_, ?_, hs.rid, ?_, ?_⟩
           · intro p hp d hd
@@ -141,9 +152,9 @@ theorem inv_sent (w : World) (src dst : Nat) (data : Bytes) (lib : Bool) (h : In
             · exact hs.peer p hp d hd
             · simp only [List.mem_singleton] at hd; subst hd
               simp only at hp
-              rw [hp] at hacc
-              simp only [kAccepts, beq_iff_eq] at hacc
-              exact hacc.symm
+              rw [hp] at hacc'
+              simp only [kAccepts, beq_iff_eq] at hacc'
+              exact hacc'.symm
           · simp only [List.map_append]; rw [← List.append_assoc, hs.split]
           · intro d hd
             rcases List.mem_append.mp hd with hd | hd
@@ -151,7 +162,7 @@ theorem inv_sent (w : World) (src dst : Nat) (data : Bytes) (lib : Bool) (h : In
             · exact List.mem_append_right _ hd
           · simp only
             rw [expected_append, ← hs.exp]
-            simp [hdlt, hacc]
+            simp [hdel, hal, hacc']
           · intro d hd
             simp only [length_enqueue]
             rcases List.mem_append.mp hd with hd | hd
@@ -163,7 +174,8 @@ theorem inv_sent (w : World) (src dst : Nat) (data : Bytes) (lib : Bool) (h : In
           refine ⟨hs.peer, hs.split, hs.queued, hs.rid, ?_, ?_⟩
           · simp only
             rw [expected_append, ← hs.exp]
-            simp [hacc]
+            have : (s0.alive && kAccepts s0.kind src) = false := by simpa using hacc
+            simp [hdel, this]
           · intro d hd; simp only [length_enqueue]; exact hs.srcs d hd
     · simp only [hd, if_false] at hj
       have hs := h.socks j s hj
@@ -177,12 +189,12 @@ theorem inv_sent (w : World) (src dst : Nat) (data : Bytes) (lib : Bool) (h : In
     rcases List.mem_append.mp hr with hr | hr
     · exact h.bound r hr hb
     · simp only [List.mem_singleton] at hr; subst hr
-      simpa using hb
+      exact deliverable_lt _ _ hb
 
 /-- a send call refused before anything was transmitted -/
-theorem inv_refused (w : World) (src dst : Nat) (data : Bytes) (st : Status) (b lib : Bool) (h : Inv w)
+theorem inv_refused (w : World) (src dst : Nat) (data : Bytes) (st : Status) (lib : Bool) (h : Inv w)
     (hst : st ≠ .sent) :
-    Inv { w with socks := w.socks, log := w.log ++ [⟨src, dst, data, st, b && decide (dst < w.socks.length), lib⟩] } := by
+    Inv { w with socks := w.socks, log := w.log ++ [⟨src, dst, data, st, deliverable w.socks dst, lib⟩] } := by
   refine ⟨?_, ?_, h.kmaxGe, ?_⟩
   rotate_left 2
   · intro r hr hl hs'
@@ -199,8 +211,7 @@ theorem inv_refused (w : World) (src dst : Nat) (data : Bytes) (st : Status) (b 
     rcases List.mem_append.mp hr with hr | hr
     · exact h.bound r hr hb
     · simp only [List.mem_singleton] at hr; subst hr
-      simp only [Bool.and_eq_true, decide_eq_true_eq] at hb
-      exact hb.2
+      exact deliverable_lt _ _ hb
 
 /-- a datagram within the declared maximum fits the buffer: nothing is cut -/
 theorem cut_of_small (d : Dgram) (h : d.data.length ≤ maxLen) : cut d = d := by
@@ -275,16 +286,86 @@ theorem inv_poll (w : World) (i : Nat) (h : Inv w) : Inv (poll w i) := by
   · exact h.kmaxGe
   · exact h.libSmall
 
-theorem inv_sendPacket (w : World) (src dst : Nat) (data : Bytes) (h : Inv w) (hsrc : src < w.socks.length) :
-    Inv (record w src dst data (sendPacket w.kmax w.socks src dst data)).1 := by
+/-- flags that the invariant does not speak about (`alive`, `err`) may change freely -/
+theorem inv_flags (w : World) (i : Nat) (f : Sock → Sock)
+    (hf : ∀ s, (f s).kind = s.kind ∧ (f s).queue = s.queue ∧ (f s).accepted = s.accepted ∧ (f s).events = s.events)
+    (h : Inv w) : Inv { w with socks := w.socks.modify i f } := by
+  refine ⟨?_, ?_, h.kmaxGe, h.libSmall⟩
+  · intro j s hj
+    simp only at hj
+    rw [List.getElem?_modify] at hj
+    cases hs0 : w.socks[j]? with
+    | none => rw [hs0] at hj; simp at hj
+    | some s0 =>
+      rw [hs0] at hj
+      simp only [Option.map_eq_map, Option.map_some, Option.some.injEq] at hj
+      have hs := h.socks j s0 hs0
+      have key : s.kind = s0.kind ∧ s.queue = s0.queue ∧ s.accepted = s0.accepted ∧ s.events = s0.events := by
+        by_cases hij : i = j
+        · simp only [hij, if_true] at hj; subst hj; exact hf s0
+        · simp only [hij, if_false] at hj; subst hj; exact ⟨rfl, rfl, rfl, rfl⟩
+      obtain ⟨k1, k2, k3, k4⟩ := key
+      refine ⟨?_, ?_, ?_, ?_, ?_, ?_⟩
+      · rw [k1, k3]; exact hs.peer
+      · rw [k1, k2, k3, k4]; exact hs.split
+      · rw [k2, k3]; exact hs.queued
+      · rw [k4]; exact hs.rid
+      · rw [k1, k3]; exact hs.exp
+      · rw [k3]; intro d hd; simp only [List.length_modify]; exact hs.srcs d hd
+  · intro r hr hb
+    simp only [List.length_modify]
+    exact h.bound r hr hb
+
+theorem deliverable_enqueue_false (socks : List Sock) (dst : Nat) (d : Dgram) (h : deliverable socks dst = false) :
+    enqueue socks dst d = socks := by
+  unfold enqueue
+  unfold deliverable at h
+  cases hs : socks[dst]? with
+  | none =>
+    apply List.ext_getElem?
+    intro j
+    rw [List.getElem?_modify]
+    by_cases hj : dst = j
+    · subst hj; simp [hs]
+    · cases socks[j]? <;> simp [hj]
+  | some s0 =>
+    simp only [hs] at h
+    apply List.ext_getElem?
+    intro j
+    rw [List.getElem?_modify]
+    by_cases hj : dst = j
+    · subst hj; simp [hs, h]
+    · cases socks[j]? <;> simp [hj]
+
+theorem inv_sendPacket (conn : Bool) (w : World) (src dst : Nat) (data : Bytes) (h : Inv w) (hsrc : src < w.socks.length) :
+    Inv (record w src dst data (sendPacket conn w.kmax w.socks src dst data)).1 := by
   unfold record sendPacket
   by_cases hlen : data.length > maxLen
   · simp only [hlen, if_true]
-    have := inv_refused w src dst data .maxPacketSizeExceeded true true h (by decide)
-    simpa using this
+    exact inv_refused w src dst data .maxPacketSizeExceeded true h (by decide)
   · have hk : ¬ data.length > w.kmax := by have := h.kmaxGe; omega
-    simp only [hlen, if_false, kSend, hk]
-    exact inv_sent w src dst data true h hsrc (fun _ => by omega)
+    simp only [hlen, if_false]
+    cases conn with
+    | false =>
+      simp only [Bool.false_eq_true, if_false, kSend, hk]
+      exact inv_sent w src dst data true h hsrc (fun _ => by omega)
+    | true =>
+      simp only [if_true, kSendConn, hk, if_false]
+      by_cases he : hasErr w.socks src = true
+      · simp only [he, if_true]
+        have h1 := inv_refused w src dst data .resourceNotFound true h (by decide)
+        exact inv_flags _ src (fun s => { s with err := false }) (fun s => ⟨rfl, rfl, rfl, rfl⟩) h1
+      · simp only [he, Bool.false_eq_true, if_false]
+        by_cases hd : deliverable w.socks dst = true
+        · simp only [hd, if_true]
+          have h1 := inv_sent w src dst data true h hsrc (fun _ => by omega)
+          simp only [hd] at h1
+          exact h1
+        · have hd' : deliverable w.socks dst = false := by simpa using hd
+          simp only [hd', Bool.false_eq_true, if_false]
+          have h1 := inv_sent w src dst data true h hsrc (fun _ => by omega)
+          simp only [hd'] at h1
+          exact inv_flags _ src (fun s => { s with err := true }) (fun s => ⟨rfl, rfl, rfl, rfl⟩) h1
 
 theorem inv_send (w : World) (ep : Endpoint) (data : Bytes) (h : Inv w) : Inv (send w ep data).1 := by
   unfold send
@@ -294,8 +375,8 @@ theorem inv_send (w : World) (ep : Endpoint) (data : Bytes) (h : Inv w) : Inv (s
     have hlt : ep.rid < w.socks.length := (List.getElem?_eq_some_iff.mp hs).1
     simp only
     cases hk : s.kind with
-    | listener => simp only; exact inv_sendPacket w ep.rid ep.addr data h hlt
-    | connected p => simp only; exact inv_sendPacket w ep.rid p data h hlt
+    | listener => simp only; exact inv_sendPacket false w ep.rid ep.addr data h hlt
+    | connected p => simp only; exact inv_sendPacket true w ep.rid p data h hlt
     | raw => simp only; exact h
 
 theorem inv_rawSend (w : World) (i dst : Nat) (data : Bytes) (h : Inv w) : Inv (rawSend w i dst data) := by
@@ -307,8 +388,7 @@ theorem inv_rawSend (w : World) (i dst : Nat) (data : Bytes) (h : Inv w) : Inv (
     simp only [kSend]
     by_cases hlen : data.length > w.kmax
     · simp only [hlen, if_true]
-      have := inv_refused w i dst data .maxPacketSizeExceeded true false h (by decide)
-      simpa using this
+      exact inv_refused w i dst data .maxPacketSizeExceeded false h (by decide)
     · simp only [hlen, if_false]
       exact inv_sent w i dst data false h hlt (fun hf => by simp at hf)
 
@@ -320,6 +400,10 @@ theorem inv_step (w : World) (a : Act) (h : Inv w) : Inv (step w a) := by
   | send ep data => exact inv_send w ep data h
   | rawSend i dst data => exact inv_rawSend w i dst data h
   | poll i => exact inv_poll w i h
+  | close i =>
+    exact inv_flags _ i (fun s => { s with alive := false }) (fun s => ⟨rfl, rfl, rfl, rfl⟩) (inv_poll w i h)
+  | reopen i =>
+    exact inv_flags _ i (fun s => { s with alive := true }) (fun s => ⟨rfl, rfl, rfl, rfl⟩) h
 
 theorem inv_run (acts : List Act) : ∀ (w : World), Inv w → Inv (run w acts) := by
   induction acts with
